@@ -459,6 +459,69 @@ Section InitState.
   Qed.
 End InitState.
 
+(** ** Records coming back from the store with an i64 version *)
+Lemma wire_version_lt v : wire_version v < two64.
+Proof.
+  unfold wire_version, two64.
+  pose proof (Z.mod_pos_bound v 18446744073709551616 ltac:(lia)) as B. lia.
+Qed.
+
+Lemma wire_version_inj v v' : is_i64 v -> is_i64 v' -> wire_version v = wire_version v' -> v = v'.
+Proof.
+  unfold wire_version, is_i64. intros B B' H.
+  pose proof (Z.mod_pos_bound v 18446744073709551616 ltac:(lia)) as M.
+  pose proof (Z.mod_pos_bound v' 18446744073709551616 ltac:(lia)) as M'.
+  assert (E : (v mod 18446744073709551616 = v' mod 18446744073709551616)%Z) by lia.
+  destruct (Z.neg_nonneg_cases v) as [Nv|Pv], (Z.neg_nonneg_cases v') as [Nv'|Pv'].
+  - rewrite <- (Z.mod_add v 1), <- (Z.mod_add v' 1) in E by lia.
+    rewrite !Z.mod_small in E by lia. lia.
+  - rewrite <- (Z.mod_add v 1) in E by lia. rewrite !Z.mod_small in E by lia. lia.
+  - rewrite <- (Z.mod_add v' 1) in E by lia. rewrite !Z.mod_small in E by lia. lia.
+  - rewrite !Z.mod_small in E by lia. exact E.
+Qed.
+
+Section Open.
+  Variable mac : bytes -> bytes -> bytes.
+
+  (** whatever comes back — also with a negative version — is handed on only with its own tag
+      under the record secret *)
+  Lemma open_every_record_tagged hs kvs out :
+    remove_and_check_hmacs mac hs kvs = Some out ->
+    Forall2 (fun (i o : wrecord) =>
+               let '(k, v, st) := i in let '(k', v', y) := o in
+               k' = k /\ v' = v /\
+               exists t, st = y ++ t /\ length t = 32%nat /\ t = value_tag mac hs k (wire_version v) y)
+            kvs out.
+  Proof.
+    revert out. induction kvs as [|[[k v] st] r IH]; intros out H; cbn [remove_and_check_hmacs] in H.
+    - inversion H. constructor.
+    - destruct (process_value_from_get mac hs k (wire_version v) st) as [y|] eqn:E; [|discriminate H].
+      destruct (remove_and_check_hmacs mac hs r) as [o|]; [|discriminate H].
+      inversion H; subst out. constructor; [|apply IH; reflexivity].
+      repeat split. apply get_accepts_only_tagged. exact E.
+  Qed.
+
+  Lemma open_short_refused hs k v st r :
+    (length st < 32)%nat -> remove_and_check_hmacs mac hs ((k, v, st) :: r) = None.
+  Proof. intros L. cbn [remove_and_check_hmacs]. rewrite get_short by exact L. reflexivity. Qed.
+
+  Hypothesis mac_inj : forall k m m', mac k m = mac k m' -> m = m'.
+
+  (** a record handed back carrying a tag the signer made for (k0, v0, x0), keys of one length,
+      versions i64 of either sign: it is exactly what the signer wrote *)
+  Lemma open_binding hs k v st y t k0 v0 x0 :
+    is_i64 v -> is_i64 v0 ->
+    process_value_from_get mac hs k (wire_version v) st = Some y ->
+    st = y ++ t -> length t = 32%nat -> t = value_tag mac hs k0 (wire_version v0) x0 ->
+    length k0 = length k -> k = k0 /\ v = v0 /\ y = x0.
+  Proof.
+    intros B B0 H Hst Lt Ht Lk.
+    destruct (get_binding mac mac_inj hs k0 (wire_version v0) x0 k (wire_version v) st y t y) as (A & Bv & C & _);
+      trivial; try apply wire_version_lt.
+    repeat split; trivial. apply wire_version_inj; assumption.
+  Qed.
+End Open.
+
 (** ** Fresh nonces over a history of reads *)
 Lemma nonces_fresh_from_spec ns : forall used,
   nonces_fresh_from used ns = true ->
